@@ -2,6 +2,7 @@ import CookModel.Analysis.Collector
 import CookModel.Lemmas.Determinism
 import CookModel.Lemmas.DeterminismLocs
 import CookModel.Lemmas.TableFacts
+import CookModel.Lemmas.TableSearch
 /-
   C18  Parsing is deterministic, stateless across calls and thread-safe.
 
@@ -278,6 +279,23 @@ theorem C18_fold_table_order_irrelevant_real (base : Env) (tbl' : List (Char × 
     (hp : List.Perm realFoldAssoc tbl') (input : Str) :
     parseRecipe (α := α) (envWithFoldTable base realFoldAssoc) input = parseRecipe (envWithFoldTable base tbl') input :=
   C18_fold_table_order_irrelevant base realFoldAssoc tbl' hp tbl_fold_nodup input
+
+/-- the fold of the differential runs (`fold := realFold`, a binary search in the generated table) IS the lookup in
+    that table read as an association list, so `C18_fold_table_order_irrelevant` speaks about the modelled folding -/
+theorem C18_real_fold_is_table_lookup_real (base : Env) :
+    ({ base with fold := realFold } : Env) = envWithFoldTable base realFoldAssoc := by
+  unfold envWithFoldTable
+  congr 1
+  funext c
+  exact tsr_realFold_eq_lookup c
+
+/-- an environment folding with `realFold` parses every input exactly as one that reads the entries of unicase's
+    table in any other order -/
+theorem C18_real_fold_order_irrelevant_real (base : Env) (tbl' : List (Char × List Char))
+    (hp : List.Perm realFoldAssoc tbl') (input : Str) :
+    parseRecipe (α := α) ({ base with fold := realFold } : Env) input = parseRecipe (envWithFoldTable base tbl') input := by
+  rw [C18_real_fold_is_table_lookup_real]
+  exact C18_fold_table_order_irrelevant base realFoldAssoc tbl' hp tbl_fold_nodup input
 
 /-! non-vacuity: reversing the generated tables is such a reordering (nothing is asserted about their contents
     beyond key uniqueness, so adding or removing a unit in `units.toml` does not touch these statements) -/
